@@ -54,6 +54,7 @@ try:
         meta["checks"][c] = {"exit": rc, "seconds": round(time.time() - t0, 1), "lines": lines[:12]}
 finally:
     sh("git -C /repo checkout -- .")
+    sh("git -C /verif checkout -- evidence")  # evidence written while a change was applied is not a record of the unchanged tree
 meta["detected"] = any(v["exit"] == 1 for v in meta["checks"].values())
 dst = "/verif/seeded/" + name
 os.makedirs(dst, exist_ok=True)
